@@ -258,5 +258,4 @@ def run(rep, tier, seed):
 
 
 def replay(rep, path):
-    import json
-    print(open(path).read()[:6000])
+    fw.replay_generic(rep, path)
